@@ -1732,6 +1732,16 @@ impl<'a> VisitMut for Rewriter<'a> {
                             self.n.errors.push(format!("unsupported .retain() argument at source line {}", sp.start().line));
                         }
                     }
+                    ("count", 0) => {
+                        // N22c: `s.chars().count()` -> vchar_count(s) (std: the number of `char`s of the str; model function of the unit's str prelude)
+                        if let Expr::MethodCall(inner) = strip_paren(&m.receiver) {
+                            if inner.method == "chars" && inner.args.is_empty() {
+                                let r = &inner.receiver;
+                                self.n.rule("N22", sp, "s.chars().count() -> vchar_count(s)");
+                                replacement = Some(parse_quote!(vchar_count(&#r)));
+                            }
+                        }
+                    }
                     ("or_default", 0) => {
                         // N16b: `m.entry(k).or_default()` -> `m.entry_or_default(k)` (one model method of the unit's map type: the value at
                         // k, inserting Default::default() first when absent — the std definition of the two calls together)
